@@ -18,6 +18,18 @@ CLAIMED = {
    technique="Coq proofs about the bootstrap model (case analysis, string-split lemmas, fold induction for first-wins) + differential run of newBootstrapConfig / xds.Init",
    text="C20_required_env, C20_node_id, C20_metadata_default, C20_metadata_carried, C20_instance_ips_member (element membership, not substring), C20_namespace_override, C20_first_wins are proved for all environments / op sequences. The model is run against newBootstrapConfig under generated environments (incl. INSTANCE_IPS lists with textual prefixes), the node of the first real request is compared, and Init/SetXDSResourceManager sequences are run in separate processes against the repo's mock ADS server.",
    note="Trusted: Coq kernel; protojson parsing of KITEX_XDS_METAS is glue (model starts from parsed fields, non-string values opaque); INSTANCE_IP without comma."),
+ "C11": dict(engine="pure", design="5 C11",
+   technique="Coq proofs (induction over routes/filters/resources, map lemmas) that the decoder model preserves every field of the source message + differential run of UnmarshalLDS/UnmarshalRDS on generated messages read back by an independent summariser",
+   text="C11_route_fields, C11_route_config, C11_header_conditions, C11_bucket_anywhere, C11_listener_fields, C11_rds_response, C11_lds_response are proved for every proto AST (no size bound); D12 (conditions on one header name collapse) is stated as C11_every_header_refuted with C11_every_header_partial carrying what holds. The model is tied to lds.go/rds.go/matcher.go by decoding generated messages with the real decoders and comparing the complete decoded structures (and evaluating the per-field preservation predicates on the implementation's output).",
+   note="Trusted: Coq kernel; protobuf-go (bytes<->messages); Go regexp validity and ParseFloat shipped as oracle data; the independent proto->AST summariser and the dumper of decoded structs in the harness. TypedStruct numbers outside [0,2^32) are skipped (float->uint32 undefined)."),
+ "C12": dict(engine="pure", design="5 C12",
+   technique="Coq proofs that the cluster/endpoint/name-table decoder model preserves every field and keys resources by their own names + differential run of UnmarshalCDS/EDS/NDS",
+   text="C12_cluster_fields, C12_endpoints, C12_nametable, C12_cds_keyed_by_own_name, C12_eds_keyed_by_own_name, C12_lookup are proved for every proto AST and every multi-resource response (incl. duplicate names: later wins). Tied to cds.go/eds.go/nds.go by decoding generated messages with the real decoders and comparing the complete result maps.",
+   note="Trusted: as C11. net.JoinHostPort / strconv.Itoa are modelled (bracket rule for hosts with a colon, decimal port)."),
+ "C13": dict(engine="pure", design="5 C13",
+   technique="Coq proofs characterising exactly when each decoder model returns an error (total functions over the whole proto AST) + differential run on structured-invalid messages and byte-level mutants (panics caught per call)",
+   text="C13_{lds,rds,cds,eds,nds}_error_iff, C13_wellformed_accepted, C13_spec_holds_of_model: the decoder models are total over every tree proto.Unmarshal can return, and return an error iff some resource has a wrong type url / does not parse / has a route without match or action / empty RDS name / (NDS) is missing. PARTIAL: the bytes->tree step is protobuf-go's and is differential-tested (truncations, bit flips, overwrites, url swaps), not proved; absence of panics in the Go code is observed per call, and argued in the model by the absence of partial operations.",
+   note="Trusted: as C11; the nil-safety of each Go field access was established by reading (getters/guards), the run catches panics on every generated input incl. one-absent-at-a-time variants."),
 }
 
 checks = []
